@@ -147,6 +147,10 @@ struct World {
     last_file: Value,
     stop_reason: Value,
     blob_dir: Option<PathBuf>,
+    /// the state file, a hard link to the inode it had at the last observed write, and what that inode held then: a write
+    /// that replaces the file (temp file + rename) leaves the old inode as it was; a write in place changes it
+    state_path: Option<PathBuf>,
+    link_snapshot: String,
     script: Value,
     rpc_counts: HashMap<&'static str, u64>,
     broadcasts: u64,
@@ -179,10 +183,27 @@ pub(in crate::relayer) fn state_file_written(contents: &str, ok: bool) {
     let mut w = world().lock().unwrap();
     let f = file_json(contents);
     w.last_file = f.clone();
-    w.events.push(json!({"ev": "file", "file": f, "ok": ok}));
+    let in_place = w.relink();
+    w.events.push(json!({"ev": "file", "file": f, "ok": ok, "in_place": in_place}));
 }
 
 impl World {
+    /// Was the state file's previous inode modified since the link to it was made?  Then links to the current one.
+    fn relink(&mut self) -> bool {
+        let Some(state) = self.state_path.clone() else {
+            return false;
+        };
+        let link = state.with_extension("link");
+        let changed = match std::fs::read_to_string(&link) {
+            Ok(now) => now != self.link_snapshot,
+            Err(_) => false,
+        };
+        let _ = std::fs::remove_file(&link);
+        let _ = std::fs::hard_link(&state, &link);
+        self.link_snapshot = std::fs::read_to_string(&state).unwrap_or_default();
+        changed
+    }
+
     /// Counts an RPC of `kind` in this session and tells whether the script kills the relayer here.
     fn crash_here(&mut self, kind: &'static str, phase: &str) -> bool {
         let n = if phase == "before" {
@@ -357,7 +378,7 @@ impl TxService for CelestiaApp {
         request: Request<GetTxRequest>,
     ) -> Result<Response<GetTxResponse>, Status> {
         let hash = request.into_inner().hash.to_lowercase();
-        let (kill, confirmed_at) = {
+        let (kill, confirmed_at, failed_at) = {
             let mut w = world().lock().unwrap();
             let idx = w.txs.iter().position(|t| t.hash == hash);
             if let Some(i) = idx {
@@ -365,14 +386,36 @@ impl TxService for CelestiaApp {
                 if w.txs[i].include == format!("polls:{}", w.txs[i].polls) {
                     w.include(i);
                 }
+                // included in a block, but its execution failed: a height together with an error code
+                if w.txs[i].include == format!("fail_polls:{}", w.txs[i].polls) && w.txs[i].st == "pending" {
+                    w.celestia_height += 1;
+                    w.txs[i].st = "failed";
+                    w.txs[i].height = w.celestia_height;
+                    let hash = w.txs[i].hash.clone();
+                    w.events.push(json!({"ev": "fail", "tx": hash}));
+                }
             }
             let confirmed_at = idx.filter(|&i| w.txs[i].st == "confirmed").map(|i| w.txs[i].height);
-            w.events.push(json!({"ev": "gettx", "tx": hash,
-                                 "ans": if confirmed_at.is_some() { "confirmed" } else { "pending" }}));
-            (w.crash_here("gettx", "before"), confirmed_at)
+            let failed_at = idx.filter(|&i| w.txs[i].st == "failed").map(|i| w.txs[i].height);
+            let ans = if confirmed_at.is_some() { "confirmed" } else if failed_at.is_some() { "failed" } else { "pending" };
+            w.events.push(json!({"ev": "gettx", "tx": hash, "ans": ans}));
+            (w.crash_here("gettx", "before"), confirmed_at, failed_at)
         };
         if kill {
             return withhold().await;
+        }
+        if let Some(height) = failed_at {
+            return Ok(Response::new(GetTxResponse {
+                tx: None,
+                tx_response: Some(TxResponse {
+                    height,
+                    txhash: hash,
+                    code: 11,
+                    codespace: "sdk".to_string(),
+                    raw_log: "out of gas".to_string(),
+                    ..TxResponse::default()
+                }),
+            }));
         }
         let Some(height) = confirmed_at else {
             return Err(Status::not_found("tx not found"));
@@ -843,6 +886,8 @@ fn crash_scenarios() {
                     std::fs::write(dir.join("submission-state.json.tmp"), "{\"state\": \"prep").unwrap();
                 }
                 let contents = std::fs::read_to_string(&state_path).unwrap_or_default();
+                w.state_path = Some(state_path.clone());
+                w.relink();
                 w.last_file = file_json(&contents);
                 w.events.push(json!({"ev": "boot", "s": s, "file": file_json(&contents)}));
             }
@@ -855,7 +900,8 @@ fn crash_scenarios() {
                 let now = file_json(&std::fs::read_to_string(&state_path).unwrap_or_default());
                 if now != w.last_file {
                     w.last_file = now.clone();
-                    w.events.push(json!({"ev": "file", "file": now, "ok": true, "seen_after_kill": true}));
+                    let in_place = w.relink();
+                    w.events.push(json!({"ev": "file", "file": now, "ok": true, "seen_after_kill": true, "in_place": in_place}));
                 }
                 let reason = if w.stop { w.stop_reason.clone() } else { json!({"at": outcome.clone()}) };
                 w.stop = true;
